@@ -148,6 +148,18 @@ def mirpRun (m : Mirp) (freqs : List Rat) (pick : Nat → List Nat → Nat) (str
 
 variable (m : Mirp) (freqs : List Rat) (pick : Nat → List Nat → Nat) (strict : Bool)
 
+/-!
+### the `mirp_*` statements
+
+Stated plainly: these are instances of the generic object-store lemmas, which hold for every constructor and action;
+their content is the shape of the store (each call reads the source and writes only its own slot), which the
+differential test ties to the code.  Nothing in their proofs looks inside `mkForm` / `actForm`: they would hold
+verbatim for any other getters and heuristics.  What is specific to the MIRP is (a) that the slots are the modelled getters
+applied to the MIRP's own graph (`mirp_get_slots`) and (b) the concrete, non-degenerate instance at the end of this file
+(`exMirp_order_and_source`, `exMirp_slot_real`, `exMirp'_isolated`), where the compared slot is evaluated and is a real
+formulation object.
+-/
+
 /-- **the MIRP's source graph is never changed** by requesting the three formulations, running their
     heuristics or querying them, in any order (instance of `source_unchanged`) -/
 theorem mirp_source_unchanged (ops : List (WOp FAct)) : (mirpRun m freqs pick strict ops).source = m.g :=
@@ -209,12 +221,104 @@ theorem mirp_request_order_irrelevant (high : Rat) (l₁ l₂ : List Nat) (hp : 
   rw [em_filter_getHeur high l₁ hn i, em_filter_getHeur high l₂ (hp.nodup_iff.1 hn) i]
   simp only [hp.mem_iff]
 
-/-- concrete tiny MIRP: the arc-based formulation after "arc getter, sequence getter, arc heuristic" equals the
-    one after "sequence getter, arc getter, arc heuristic" — by the theorem, not by evaluation -/
+/-- concrete tiny MIRP (no port, no arc): the arc-based formulation after "arc getter, sequence getter, arc heuristic"
+    equals the one after "sequence getter, arc getter, arc heuristic" — by the theorem, not by evaluation -/
 example (freqs : List Rat) (pick : Nat → List Nat → Nat) (strict : Bool) :
     (mirpRun (Mirp.new 1 2) freqs pick strict [.get 0, .get 2, .act 0 (.heur 10)]).slot 0
       = (mirpRun (Mirp.new 1 2) freqs pick strict [.get 2, .get 0, .act 0 (.heur 10)]).slot 0 := by
   refine mirp_order_independent _ _ _ _ _ _ (fun j => ?_) 0
   rcases j with _ | _ | _ | j <;> simp [WOp.target]
+
+/-! ## a non-degenerate instance
+
+A MIRP with ports and arcs, built by the modelled helper calls: cargo size 1, horizon 4, one supply port `S` (rate 1)
+and one demand port `D` (rate −1) with three visits each, `add_travel_arcs` (vessel speed 1), `add_exit_arcs`,
+`add_entry_arcs` (one dummy pre-loaded vessel) — the op list of the non-vacuity example of `Props/C12.lean`.  The source
+graph has 8 nodes and 21 arcs.  Two interleavings of the three getter requests and one run of the arc heuristic are
+compared BY THE THEOREMS; that the compared slot holds a real formulation object (an `ArcInst` on that graph with its
+time grid) is shown BY EVALUATION. -/
+
+/-- the helper calls of the non-vacuity example of `Props/C12.lean` -/
+def exOps : List MOp :=
+  [.port "S" 0 1 2, .port "D" 2 (-1) 2, .travel 1 1 [("S", "D", 1)] [("S", 3)] [("D", 5)], .exit 1 0, .entry 3 0 0]
+
+/-- the MIRP built by `exOps` on `Mirp.new 1 4` -/
+def exMirp : Mirp := (Mirp.build 10 (Mirp.new 1 4) exOps).getD (Mirp.new 1 4)
+
+theorem build_getD (ops : List MOp) (h : (Mirp.build 10 (Mirp.new 1 4) ops).isSome = true) :
+    Mirp.build 10 (Mirp.new 1 4) ops = some ((Mirp.build 10 (Mirp.new 1 4) ops).getD (Mirp.new 1 4)) := by
+  cases hb : Mirp.build 10 (Mirp.new 1 4) ops with
+  | none => rw [hb] at h; exact absurd h (by simp)
+  | some m => rfl
+
+/-- the build succeeds and `exMirp` is its result: one supply port, one demand port, 8 nodes, 21 arcs (travel, exit and
+    entry arcs among them) -/
+theorem exMirp_built :
+    Mirp.build 10 (Mirp.new 1 4) exOps = some exMirp ∧ exMirp.supply = ["S"] ∧ exMirp.demand = ["D"] ∧
+    exMirp.g.nodes.length = 8 ∧ exMirp.g.arcs.length = 21 ∧
+    exMirp.g.hasArc 1 4 = true ∧ exMirp.g.hasArc 1 0 = true ∧ exMirp.g.hasArc 0 7 = true :=
+  ⟨build_getD exOps (by decide +kernel), by decide +kernel⟩
+
+def exHist₁ : List (WOp FAct) := [.get 0, .get 2, .act 0 (.heur 10), .get 1]
+def exHist₂ : List (WOp FAct) := [.get 1, .get 2, .get 0, .act 0 (.heur 10)]
+
+theorem exHist_filter (j : Nat) :
+    exHist₁.filter (fun op => op.target = j) = exHist₂.filter (fun op => op.target = j) := by
+  rcases j with _ | _ | _ | j <;> simp [exHist₁, exHist₂, WOp.target]
+
+/-- **by the theorems**: on the built MIRP the arc-based slot after "arc getter, sequence getter, arc heuristic, path
+    getter" equals the one after "path getter, sequence getter, arc getter, arc heuristic" (`mirp_order_independent`), and
+    the source graph is the MIRP's graph after both histories (`mirp_source_unchanged`), for every sampler script, port
+    frequencies and strictness -/
+theorem exMirp_order_and_source (freqs : List Rat) (pick : Nat → List Nat → Nat) (strict : Bool) :
+    (mirpRun exMirp freqs pick strict exHist₁).slot 0 = (mirpRun exMirp freqs pick strict exHist₂).slot 0 ∧
+    (mirpRun exMirp freqs pick strict exHist₁).source = exMirp.g ∧
+    (mirpRun exMirp freqs pick strict exHist₂).source = exMirp.g :=
+  ⟨mirp_order_independent exMirp freqs pick strict exHist₁ exHist₂ exHist_filter 0,
+   mirp_source_unchanged exMirp freqs pick strict exHist₁, mirp_source_unchanged exMirp freqs pick strict exHist₂⟩
+
+/-- what the arc slot of a MIRP holds after a getter request and one heuristic run addressed to it, whatever else was
+    requested in between (`mirp_non_interference`, then unfolding) -/
+theorem arc_slot_after_heur (m : Mirp) (freqs : List Rat) (pick : Nat → List Nat → Nat) (strict : Bool) (high : Rat)
+    (ops : List (WOp FAct)) (h : ops.filter (fun op => op.target = 0) = [.get 0, .act 0 (.heur high)]) :
+    (mirpRun m freqs pick strict ops).slot 0
+      = some (.arc (match m.getArcBased.makeFeasible high with | .ok (J, _) => J | .error _ => m.getArcBased)) := by
+  rw [mirp_non_interference, h]
+  show some (actForm pick (.arc m.getArcBased) (.heur high)) = _
+  simp only [actForm]
+  cases m.getArcBased.makeFeasible high with
+  | ok p => rfl
+  | error e => rfl
+
+/-- **by evaluation**: that slot is a real formulation object — `some (Form.arc I)` with the MIRP's 8 nodes, its 21 arcs
+    (≥ 4) and the time grid `0 … 4` (69 decision tuples).  (On this instance `make_feasible(10)` raises — the exit arcs
+    take one time unit and the last visits cannot return within the horizon — so the object is the one the getter built.) -/
+theorem exMirp_slot_real (freqs : List Rat) (pick : Nat → List Nat → Nat) (strict : Bool) :
+    ∃ I, (mirpRun exMirp freqs pick strict exHist₁).slot 0 = some (Form.arc I) ∧ I.g.arcs.length ≥ 4 ∧
+      I.g.arcs.length = 21 ∧ I.g.nodes.length = 8 ∧ I.T = [0, 1, 2, 3, 4] ∧ I.vars.length = 69 := by
+  refine ⟨_, arc_slot_after_heur exMirp freqs pick strict 10 exHist₁ (exHist_filter 0 ▸ rfl), ?_⟩
+  decide +kernel
+
+/-- the same MIRP with exit time 0 and at most one dummy vessel (`add_exit_arcs(0, 0)`, `add_entry_arcs(1, 0, 0)`): here
+    the arc heuristic SUCCEEDS and adds dummy arcs -/
+def exOps' : List MOp :=
+  [.port "S" 0 1 2, .port "D" 2 (-1) 2, .travel 1 1 [("S", "D", 1)] [("S", 3)] [("D", 5)], .exit 0 0, .entry 1 0 0]
+
+def exMirp' : Mirp := (Mirp.build 10 (Mirp.new 1 4) exOps').getD (Mirp.new 1 4)
+
+/-- **isolation, on an instance where the heuristic changes its formulation**: after either history the arc-based slot is
+    one and the same formulation object with 24 arcs — the 18 arcs of the MIRP plus 6 dummy arcs added by
+    `make_feasible(10)` inside the formulation's own copy — while the source graph is still the MIRP's graph with 18 arcs
+    (equalities by `mirp_order_independent` / `mirp_source_unchanged`, sizes by evaluation) -/
+theorem exMirp'_isolated (freqs : List Rat) (pick : Nat → List Nat → Nat) (strict : Bool) :
+    Mirp.build 10 (Mirp.new 1 4) exOps' = some exMirp' ∧
+    (mirpRun exMirp' freqs pick strict exHist₁).slot 0 = (mirpRun exMirp' freqs pick strict exHist₂).slot 0 ∧
+    (mirpRun exMirp' freqs pick strict exHist₂).source = exMirp'.g ∧ exMirp'.g.arcs.length = 18 ∧
+    ∃ I, (mirpRun exMirp' freqs pick strict exHist₂).slot 0 = some (Form.arc I) ∧ I.g.arcs.length = 24 ∧
+      I.g.nodes = exMirp'.g.nodes := by
+  have ho := mirp_order_independent exMirp' freqs pick strict exHist₁ exHist₂ exHist_filter 0
+  refine ⟨build_getD exOps' (by decide +kernel), ho, mirp_source_unchanged exMirp' freqs pick strict exHist₂,
+    by decide +kernel, _, ho ▸ arc_slot_after_heur exMirp' freqs pick strict 10 exHist₁ (exHist_filter 0 ▸ rfl), ?_⟩
+  decide +kernel
 
 end Vrp.C16
